@@ -188,7 +188,7 @@ def _rs_backward(ctx, mir) -> None:
 
 
 _WC = Canon()
-WEEK_ATOMS = {EC(_WC, "W > 53")[0], EC(_WC, "W > 52")[0], "is_long_year(Y)", EC(_WC, "D > 7")[0]}
+WEEK_ATOMS = {EC(_WC, "W < 1")[0], EC(_WC, "W > 53")[0], EC(_WC, "W > 52")[0], "is_long_year(Y)", EC(_WC, "D < 1")[0], EC(_WC, "D > 7")[0]}
 
 
 def _week_py(ctx):
@@ -657,6 +657,94 @@ def _separators(ctx, mir) -> None:
     ctx.count("separator_tests", n)
 
 
+PY_ISO = [   # text -> ('date', y, m, d) | ('time', h, mi, s, us, offset | None) | ('dt', y, m, d, h, mi, s, us, offset | None) | None = must be refused
+    ("2016-10-06", ("date", 2016, 10, 6)), ("20161006", ("date", 2016, 10, 6)), ("2016-10", ("date", 2016, 10, 1)), ("2016", ("date", 2016, 1, 1)),
+    ("2016-W40-4", ("date", 2016, 10, 6)), ("2016W404", ("date", 2016, 10, 6)), ("2016-W40", ("date", 2016, 10, 3)), ("2016W40", ("date", 2016, 10, 3)),
+    ("2020-W53-5", ("date", 2021, 1, 1)), ("2021-W01-1", ("date", 2021, 1, 4)), ("2016-W52-7", ("date", 2017, 1, 1)), ("1999-W52-6", ("date", 2000, 1, 1)),
+    ("2015-W01-1", ("date", 2014, 12, 29)), ("2020-W01-1", ("date", 2019, 12, 30)), ("2009-W53-7", ("date", 2010, 1, 3)),
+    ("2016-280", ("date", 2016, 10, 6)), ("2016280", ("date", 2016, 10, 6)), ("2020-366", ("date", 2020, 12, 31)), ("2019-365", ("date", 2019, 12, 31)),
+    ("2019-001", ("date", 2019, 1, 1)), ("2016-060", ("date", 2016, 2, 29)), ("2015-060", ("date", 2015, 3, 1)), ("2016-031", ("date", 2016, 1, 31)), ("2016-032", ("date", 2016, 2, 1)),
+    ("2015-059", ("date", 2015, 2, 28)), ("2016-335", ("date", 2016, 11, 30)), ("2016-336", ("date", 2016, 12, 1)),
+    ("10:20:30", ("time", 10, 20, 30, 0, None)), ("10:20", ("time", 10, 20, 0, 0, None)), ("T10:20", ("time", 10, 20, 0, 0, None)), ("102030", ("time", 10, 20, 30, 0, None)),
+    ("10:20:30.123456", ("time", 10, 20, 30, 123456, None)), ("10:20:30.5", ("time", 10, 20, 30, 500000, None)), ("10:20:30,5", ("time", 10, 20, 30, 500000, None)),
+    ("10:20:30.1234567", ("time", 10, 20, 30, 123456, None)), ("10:20:30.000001", ("time", 10, 20, 30, 1, None)), ("23:59:59.999999999", ("time", 23, 59, 59, 999999, None)),
+    ("10:20:30.000009", ("time", 10, 20, 30, 9, None)), ("10:20:30.29", ("time", 10, 20, 30, 290000, None)), ("10:20:30.57", ("time", 10, 20, 30, 570000, None)),
+    ("10:20:30.0157", ("time", 10, 20, 30, 15700, None)), ("10:20:30.0314", ("time", 10, 20, 30, 31400, None)), ("2016-10-06T12:34:56.0633Z", ("dt", 2016, 10, 6, 12, 34, 56, 63300, 0)),
+    ("10:20:30.999999", ("time", 10, 20, 30, 999999, None)), ("10:20:30.0000019", ("time", 10, 20, 30, 1, None)), ("2016-10-06T12:34:56.000123", ("dt", 2016, 10, 6, 12, 34, 56, 123, None)),
+    ("10:20:30+01:30", ("time", 10, 20, 30, 0, 5400)), ("10:20:30-0530", ("time", 10, 20, 30, 0, -19800)), ("10:20:30Z", ("time", 10, 20, 30, 0, 0)),
+    ("2016-10-06T12:34:56", ("dt", 2016, 10, 6, 12, 34, 56, 0, None)), ("2016-10-06 12:34:56", ("dt", 2016, 10, 6, 12, 34, 56, 0, None)),
+    ("20161006T123456", ("dt", 2016, 10, 6, 12, 34, 56, 0, None)), ("2016-10-06T12:34:56.123456", ("dt", 2016, 10, 6, 12, 34, 56, 123456, None)),
+    ("2016-10-06T12:34:56.75", ("dt", 2016, 10, 6, 12, 34, 56, 750000, None)), ("20161006T123456.5", ("dt", 2016, 10, 6, 12, 34, 56, 500000, None)),
+    ("2016-10-06T12:34:56+01:30", ("dt", 2016, 10, 6, 12, 34, 56, 0, 5400)), ("2016-10-06T12:34:56-05:30", ("dt", 2016, 10, 6, 12, 34, 56, 0, -19800)),
+    ("2016-10-06T12:34:56+05", ("dt", 2016, 10, 6, 12, 34, 56, 0, 18000)), ("2016-10-06T12:34:56-0945", ("dt", 2016, 10, 6, 12, 34, 56, 0, -35100)),
+    ("2016-10-06T12:34:56Z", ("dt", 2016, 10, 6, 12, 34, 56, 0, 0)), ("2016-10-06T12:34-03:00", ("dt", 2016, 10, 6, 12, 34, 0, 0, -10800)),
+    ("2016-10-06T12", ("dt", 2016, 10, 6, 12, 0, 0, 0, None)), ("2016-W40-4T10:20", ("dt", 2016, 10, 6, 10, 20, 0, 0, None)), ("2016-280T10:20:30", ("dt", 2016, 10, 6, 10, 20, 30, 0, None)),
+    ("2016-02-29T00:00:00", ("dt", 2016, 2, 29, 0, 0, 0, 0, None)), ("2016-12-31T23:59:59.999999+00:00", ("dt", 2016, 12, 31, 23, 59, 59, 999999, 0)),
+    ("2016-13-01", None), ("2016-02-30", None), ("2015-02-29", None), ("2016-W54", None), ("2016-W40-8", None), ("2016-W40-0", None), ("2016W400", None), ("2016-W00-1", None), ("2016W001", None), ("2016-W00", None), ("2016-W53", None), ("2015-W53", ("date", 2015, 12, 28)), ("2015-W53-7", ("date", 2016, 1, 3)),
+    ("2016-000", None), ("2015-366", None), ("2016-367", None), ("2016-10-06T25:00", None), ("2016-10-06T10:61", None), ("10:20:61", None), ("2016-10-0612:34", None),
+    ("2016-W404", None), ("2016W40-4", None), ("10:2030", None), ("1020:30", None), ("10:", None), ("", None), ("abc", None), ("2016-10-06T", None),
+]
+
+
+def _py_iso_tabulate(ctx) -> None:
+    """PYISO.tabulated: the pure-Python `parse_iso8601` run by the checker's interpreter (ISO8601_DT matched by the standard library's
+    `re`, the calendar helpers interpreted from _helpers.py, date / time / datetime built by the standard library) on a table of
+    calendar, week and ordinal dates in extended and basic format (year boundaries of long and short ISO years, leap days,
+    month boundaries of the ordinal search), times to the hour, minute, second and with fractions of 1-9 digits, offsets of both
+    signs in the three spellings and Z, date-time combinations with 'T' and space - and on strings that must be refused.  Accepted
+    strings must yield exactly the value they denote, refused ones a ValueError (ParserError is one)."""
+    import datetime as _dt
+    from ..rules import minieval
+    m = pmod("parsing.iso8601")
+    fn = m.func("parse_iso8601")
+    hm = pmod("_helpers")
+    try:
+        pat = re.compile(core.const("parsing.iso8601", "ISO8601_DT"), re.VERBOSE)
+        hfuncs = {st.name: st for st in hm.top() if isinstance(st, ast.FunctionDef)}
+        hglob = {**hfuncs, "$globals": {**minieval.module_consts(hm), "math": minieval.Stub(floor=__import__("math").floor)}}
+        funcs = {st.name: st for st in m.top() if isinstance(st, ast.FunctionDef)}
+        for name_ in ("days_in_year", "is_leap", "is_long_year", "week_day"):
+            if name_ in hfuncs:
+                funcs[name_] = (hfuncs[name_], hglob)
+        glob = {**minieval.module_consts(m), "ISO8601_DT": pat, "ISO8601_DURATION": re.compile(core.const("parsing.iso8601", "ISO8601_DURATION"), re.VERBOSE),
+                "ParserError": ValueError, "ValueError": ValueError, "datetime": minieval.Stub(datetime=_dt.datetime, date=_dt.date, time=_dt.time, timedelta=_dt.timedelta),
+                "UTC": _dt.timezone.utc, "FixedTimezone": minieval.ClassStub(_new=lambda off, *a, **k: _dt.timezone(_dt.timedelta(seconds=off)), _isa=lambda v: False),
+                "Duration": minieval.ClassStub(_new=lambda *a, **k: minieval.Stub(_duration=True), _isa=lambda v: False), "Timezone": None}
+        bad, n = [], 0
+        for text, want in PY_ISO:
+            n += 1
+            try:
+                got = minieval.call(fn, [text], {}, {**funcs, "$globals": glob})
+            except minieval.Raised as e:
+                if want is not None:
+                    bad.append(f"{text!r} is refused ({e.exc_name}); it denotes {want}")
+                elif e.exc_name not in ("ParserError", "ValueError"):
+                    bad.append(f"{text!r} raises {e.exc_name} instead of a ValueError (ParserError)")
+                continue
+            if want is None:
+                bad.append(f"{text!r} is accepted as {got!r}; it must be refused")
+                continue
+            if want[0] == "date":
+                ok = type(got) is _dt.date and (got.year, got.month, got.day) == want[1:]
+            elif want[0] == "time":
+                ok = type(got) is _dt.time and (got.hour, got.minute, got.second, got.microsecond) == want[1:5] and \
+                    ((got.utcoffset() is None) if want[5] is None else (got.tzinfo is not None and got.utcoffset() == _dt.timedelta(seconds=want[5])))
+            else:
+                ok = type(got) is _dt.datetime and (got.year, got.month, got.day, got.hour, got.minute, got.second, got.microsecond) == want[1:8] and \
+                    ((got.tzinfo is None) if want[8] is None else (got.tzinfo is not None and got.utcoffset() == _dt.timedelta(seconds=want[8])))
+            if not ok:
+                bad.append(f"{text!r} -> {got!r} (expected {want})")
+    except (core.Unsupported, KeyError, TypeError, AttributeError, IndexError, ValueError, re.error, RecursionError) as e:
+        ctx.unverified("PYISO.tabulated", "parse_iso8601", f"outside the checker's interpreter: {type(e).__name__}: {e}", m.loc(fn))
+        return
+    ctx.ob("PYISO.tabulated", "parse_iso8601", not bad, f"{n} strings: " + ("; ".join(bad[:3]) if bad else "every accepted string yields the value it denotes, every malformed one ParserError"),
+           m.loc(fn))
+    if not bad:
+        ctx.established(("CUMSEARCH", "FRACTION"), "py:parse_iso8601", "PYISO.tabulated")
+        ctx.established(("WEEKDATE",), "py:_get_iso_8601_week", "PYISO.tabulated")
+        ctx.established(("OFFSET.parse",), "py:iso8601.parse_iso8601", "PYISO.tabulated")
+
+
 def _offset_starters(ctx, mir) -> None:
     """a time of day is over where the offset begins, and an offset begins with 'Z', '+' or '-': wherever the compiled parser decides
     "is there more of the time?" by testing the current character against one of them (a chain of `!=` tests sharing their exit),
@@ -695,6 +783,7 @@ def _offset_starters(ctx, mir) -> None:
 
 def run(ctx) -> None:
     ctx.explanation = EXPLANATION
+    ctx.step(_py_iso_tabulate, ctx)
     ctx.step(_table_is_cumulative, ctx)
     ctx.step(_py_forward, ctx)
     ctx.step(_py_backward, ctx)
